@@ -203,7 +203,15 @@ META["C18"] = {
 }
 @prop("C18")
 def c18():
-    fs = [Q(f"feat_settings_n{n}", "feat.cpp", "vh_feat_settings", {"NSET": n, "NF": 1, "VH_FEATSET": None}, unwind=n + 3, unwindset={"vh_bytes": 4 * n + 2},
+    sl = []
+    for nl in (1, 2, 3):
+        sl.append(Q(f"clonefeatures_l{nl}", "sill.cpp", "vh_clonefeatures", {"NL": nl, "LEN": 12}, unwind=nl + 3, unwindset={"vh_clonefeatures": nl + 3, "cloneFeatures": nl + 3, "lid:ll_malloc_split": 8, "lid:ll_calloc_split": 8, "lid:ll_realloc_split": 8, "lid:ll_memmove_sym": 8},
+                    cc_defs=["LL_MEM_CASES=0,4,8,16,32"]))
+    for nl, L in ((0, 12), (1, 12), (1, 19), (1, 20), (1, 28), (2, 28), (2, 36)):
+        sl.append(Q(f"readsill_l{nl}_len{L}", "sill.cpp", "vh_readsill", {"NL": nl, "LEN": L}, unwind=8, unwindset={"vh_get_table": L + 2, "vh_bytes": L + 2, "readSill": 6, "findFeatureRef": 3, "lid:ll_malloc_split": 10, "lid:ll_calloc_split": 10, "lid:ll_realloc_split": 10},
+                    cc_defs=["LL_MEM_CASES=0,4,8,32," + ",".join(str(k) for k in sorted({L, 8 + 16 * nl, 16 * nl, 24} - {32}))], timeout=600,
+                    tiers=("quick", "thorough") if nl <= 1 else ("thorough",)))
+    fs = sl + [Q(f"feat_settings_n{n}", "feat.cpp", "vh_feat_settings", {"NSET": n, "NF": 1, "VH_FEATSET": None}, unwind=n + 3, unwindset={"vh_bytes": 4 * n + 2},
             expose=["_ZN12_GLOBAL__N_119readFeatureSettingsEPKhPN9graphite214FeatureSettingEm"], unit_flags={"FeatureMap": ["-fno-inline"]}) for n in (1, 2, 3)]
     return fs + feat_queries() + [Q("fref_alloc_lo", "C18_features.cpp", "vh_fref_alloc", {"BITS_LO": 0, "BITS_HI": 4096}, unwind=34),
             Q("fref_alloc_hi", "C18_features.cpp", "vh_fref_alloc", {"BITS_LO": 4096, "BITS_HI": 8192}, unwind=34),
@@ -391,7 +399,8 @@ def c01_reach():
         if q.name in want:
             r = copy.copy(q); r.defines = dict(q.defines, REACH_ACCEPT=None); r.name = q.name + "_accepts"; r.tiers = ("quick", "thorough"); qs.append(r)
     return qs
-C01_PARTS = [c01_cmap, c01_name, c01_decoder, feat_queries, c01_pass, c01_silf, c01_silfhdr, c01_ttf, c01_reach]
+def c01_sill(): return [x for x in QUERIES["C18"]() if x.name.startswith("readsill")]      # the Sill loader on arbitrary bytes is a C01 clause too
+C01_PARTS = [c01_cmap, c01_name, c01_decoder, feat_queries, c01_pass, c01_silf, c01_silfhdr, c01_ttf, c01_reach, c01_sill]
 @prop("C01")
 def c01():
     qs = []
@@ -494,6 +503,10 @@ def c02():
     qs += slot_queries("C02", ["vh_slot_attr"], 2, 3, extra={"NSPARE": 2}, extra_unwind={"setJustify": 4, "getJustify": 4, "newJustify": 4, "LoadSlot": 3, "lid:ll_calloc_split": 12, "lid:ll_malloc_split": 12, "lid:ll_realloc_split": 12})
     for x in qs:
         if x.entry == "vh_slot_attr": x.cc_defs = ["LL_MEM_CASES=0,8,16,24,32,48,64"]
+    for nkv in (0, 1, 2, 3):
+        sizes = sorted({0} | {(4 * c + n) * 2 for c in (1, 2) for n in range(0, nkv + 1)})
+        qs.append(Q(f"sparse_n{nkv}", "sparse.cpp", "vh_sparse", {"NKV": nkv}, unwind=nkv + 3, unwindset={"vh_sparse": nkv + 3, "lid:ll_calloc_split": len(sizes) + 2, "lid:ll_malloc_split": len(sizes) + 2, "bit_set_count": 50},
+                    cc_defs=["LL_MEM_CASES=" + ",".join(map(str, sizes))]))
     qs += [x for x in c06() if x.name.startswith("rule_loop")]      # the MaxRuleLoop budget of Pass::runGraphite bounds the work per position (also a C06 clause)
     return qs
 
